@@ -7,7 +7,7 @@
           the repair differs ONLY in the two signed defect classes (regression witnesses)
    Counters (TLCSet registers, one worker) give the vacuity guard and the counterexample census. *)
 EXTENDS KFilter, TLCExt, Json, Randomization
-CONSTANTS LeafSet,    \* "small" | "full"
+CONSTANTS LeafSet,    \* "tiny" | "small" | "subfam" | "full"
           Depth,      \* 1 | 2 (connective depth)
           LayoutIds,  \* subset of 1..NLayouts
           DbSet,      \* "full16" | "le2" | "le2s" | "single"
@@ -23,7 +23,10 @@ LeavesSmall == {Eq("a", 1), Eq("b", 1), Pres("a"), Pres("b"), LessT("b", 2), Sub
 LeavesFull  == {Eq("a", 1), Eq("a", 2), Eq("b", 1), Eq("b", 2), Pres("a"), Pres("b"),
                 LessT("b", 2), LessT("b", 3), Sub("a", 0), Sub("a", 1), Inv("a"), [k |-> "self"]}
 LeavesTiny  == {Eq("a", 1), Eq("b", 1), Pres("a"), LessT("b", 2), Sub("a", 1)}
-Leaves == CASE LeafSet = "tiny" -> LeavesTiny [] LeafSet = "small" -> LeavesSmall [] OTHER -> LeavesFull
+\* the substring family sharing attribute AND value (contains / starts-with / ends-with "ab"): the three kinds differ on
+\* the values "abx" / "xab", and sort + dedup must never merge terms of different kinds
+LeavesSubFam == {Sub("a", 0), Stw("a", 0), Enw("a", 0), Eq("a", 1)}
+Leaves == CASE LeafSet = "tiny" -> LeavesTiny [] LeafSet = "small" -> LeavesSmall [] LeafSet = "subfam" -> LeavesSubFam [] OTHER -> LeavesFull
 Comb(S) == {And(<<x>>) : x \in S} \cup {And(<<x, y>>) : x \in S, y \in S}
            \cup {Or(<<x>>) : x \in S} \cup {Or(<<x, y>>) : x \in S, y \in S} \cup {Not(x) : x \in S}
 \* (operators with a parameter: TLC evaluates zero-arity constant definitions eagerly, needed or not)
